@@ -185,24 +185,29 @@ def run(ctx):
     cfg = A.write_cfg(ctx, "g_sim.cfg", "SpecSim", {"Ns": "{1}", "Kinds": kinds_set, "MaxWorld": 12})
     for j in range(nsim):
         jobs.append({"cfg": cfg, "simulate": (depth, ctx.seed * 1000 + j + 1), "tag": "sim %d" % j})
-    cases = A.tlc_cases(ctx, "MpiGroupGen.tla", jobs, timeout=600 if quick else 1500)
-    # de-duplicate (the sample may repeat small cases)
-    seen, uniq = set(), []
-    for c in cases:
-        h = vlib.canon_hash(c)
-        if h not in seen:
-            seen.add(h)
-            uniq.append(c)
-    cases = uniq
-    for c in cases:
-        ctx.count({k: v for k, v in c.items()}, nontrivial=nontrivial(c))
-    for c in cases[:1] + cases[len(cases) // 2:len(cases) // 2 + 2] + cases[-2:]:
-        ctx.sample({k: v for k, v in c.items() if k != "id"})
-    by_kind = {}
-    for c in cases:
-        by_kind[c["k"]] = by_kind.get(c["k"], 0) + 1
+    rep = A.Reporter(ctx, tokens_of, np_of, judge)
+    dd = A.Dedup()
+    by_kind, worlds, tot = {}, set(), {"cases": 0, "views": 0}
+
+    def process(cases):
+        cases = [c for c in cases if dd.fresh(c)]          # the sample may repeat small cases
+        results = A.run_all(ctx, cases, tokens_of, np_of, chunk=500)
+        with A._lock:
+            for c in cases:
+                ctx.count({k: v for k, v in c.items() if k != "id"}, nontrivial=nontrivial(c))
+                by_kind[c["k"]] = by_kind.get(c["k"], 0) + 1
+                worlds.add(c["n"])
+                tot["cases"] += 1
+                tot["views"] += c["n"]
+            for c in cases[:1] + cases[-1:]:
+                ctx.sample({k: v for k, v in c.items() if k != "id"}, limit=6)
+        for c in cases:
+            for sig, what, detail in judge(c, results[c["id"]]):
+                rep.add(c, sig, what, detail)
+
+    A.pipeline(ctx, "MpiGroupGen.tla", jobs, process, par=len(jobs) if quick else 8, timeout=600 if quick else 1500)
     ctx.cov["cases_by_kind"] = by_kind
-    ctx.cov["world_sizes"] = sorted({c["n"] for c in cases})
+    ctx.cov["world_sizes"] = sorted(worlds)
     ctx.cov["exhaustive"] = True
     ctx.cov["rule"] = ("cases and expected results printed by TLC from MpiGroupGen: all cases over worlds 1..%s (exhaustive small scope, see "
                        "module docstring%s) + %d seeded -simulate behaviours of %d cases over worlds 1..12 (seed %d); every case is executed "
@@ -210,16 +215,8 @@ def run(ctx):
                        "operations), the base group has >= 2 members (incl/excl/ranges/create/dup), two processes share a color (split); "
                        "distinct by canonical JSON hash" % ("4" if not quick else "3", "" if not quick else "; world 4: set operations, incl/excl, dup only",
                                                            nsim, depth, ctx.seed))
-    results = A.run_all(ctx, cases, tokens_of, np_of, chunk=500)
-    rep = A.Reporter(ctx, tokens_of, np_of, judge)
-    views = 0
-    for c in cases:
-        res = results[c["id"]]
-        views += c["n"]
-        for sig, what, detail in judge(c, res):
-            rep.add(c, sig, what, detail)
-    ctx.cov["traces_validated_against_impl"] += len(cases)
-    ctx.cov["rank_views_compared"] = views
+    ctx.cov["traces_validated_against_impl"] += tot["cases"]
+    ctx.cov["rank_views_compared"] = tot["views"]
     rep.flush()
     ctx.assumptions += ["TLC evaluates the specification, not the code: the binding is the replay of the generated cases on every rank",
                         "group contents are observed through MPI_Group_translate_ranks to the world group, MPI_Group_size/rank, MPI_Comm_size/rank",
